@@ -269,8 +269,18 @@ impl Model {
                 p.r.i = st.a as usize % 128;
             }
             Op::RawTrip => {
-                p.r.form = st.form % 2;
-                if self.info.be_of(slot).kind != BeKind::Heap && self.info.be_of(slot).kind != BeKind::Sim {
+                p.r.form = st.form % 4;
+                if p.r.form >= 2 {
+                    // zero-capacity Empty back end probe (independent of the slot's back end)
+                    let t = self.fresh();
+                    p.r.tags.push(t);
+                    p.nontrivial = true;
+                    p.ev.push(Ev::Bool(true));
+                    if self.info.cloneable {
+                        self.clones += 1;
+                        p.clones += 1;
+                    }
+                } else if self.info.be_of(slot).kind != BeKind::Heap && self.info.be_of(slot).kind != BeKind::Sim {
                     p.r.op = Op::Nop;
                 } else {
                     let len = self.len(slot);
